@@ -1011,7 +1011,7 @@ def run_e2e_case(args):
     pf = e2e.write_project(root, files, opts, text="Project text.\n")
     res = e2e.run_inprocess(pf)
     out = {"rc": res["rc"], "exc": res.get("exc"), "trace": res.get("trace", "")[-1500:], "tracers": {}, "pages": [],
-           "bad_hrefs": [], "links": []}
+           "bad_hrefs": [], "links": [], "bind_links": []}
     if res["rc"] != 0 or res["out"] is None:
         return out
     outdir = Path(res["out"])
@@ -1029,6 +1029,10 @@ def run_e2e_case(args):
         out["tracers"][rel] = ids
         # the `[[name]]` links of the generated comments carry a marker word: they are attributed to the
         # comment they were written in and judged one by one; all other hrefs are checked below
+        # names of type-bound procedures printed as links (`bound_declaration(tb, link_name=True)`)
+        for m in BIND_NAME_RE.finditer(text):
+            if m.group(1) and "#boundprocedure-" in m.group(1) and not m.group(1).startswith("http"):
+                out["bind_links"].append([rel, m.group(2).split("/")[-1], href_page(m.group(1), os.path.dirname(rel))])
         for m in LK_RE.finditer(text):
             tgt = None if m.group(3) is None else href_page(m.group(3), os.path.dirname(rel))
             key = (int(m.group(1)), int(m.group(2)), tgt)
@@ -1149,6 +1153,16 @@ def e2e_stream(ford, drv, rng, n, rep, stats, d, variant, graphs, workers, lrng=
                     rep.tie_broken(f"correspondence e2e: tracer words on {rel} differ from what the model says the page shows (case {k})",
                                    dict(base, page=rel, only_on_page=sorted(set(got_pg) - set(want_pg)),
                                         only_in_model=sorted(set(want_pg) - set(got_pg))))
+            # binding names that are links in the type summaries of the site == `bindLinksOf` (macro as it is)
+            want_bl = sorted({(nearest_page(byid[t], byid), byid[b]["name"], page_of(byid[dd]))
+                              for t, b, dd in mo["bind_links"]["guarded"]})
+            got_bl = sorted({tuple(x) for x in res.get("bind_links", [])})
+            stats["e2e_bind_links"] = stats.get("e2e_bind_links", 0) + len(got_bl)
+            if want_bl != got_bl:
+                ncorr += 1
+                rep.tie_broken(f"correspondence e2e: the binding names the site links in type summaries differ from the model's on case {k}",
+                               dict(base, only_on_site=[x for x in got_bl if x not in want_bl],
+                                    only_in_model=[x for x in want_bl if x not in got_bl]))
         # ---- property oracle
         sel, ref = spec_selected(P)
         fails = []
@@ -1474,6 +1488,7 @@ def run(tier: str, seed: int, replay: str | None = None) -> int:
         e2e_wall_s=stats.get("e2e_wall_s"),
         micro_histogram=stats.get("micro_histogram"),
         binding_name_links=stats.get("bind_links"),
+        e2e_binding_name_links_compared=stats.get("e2e_bind_links", 0),
         witnesses={k: v for k, v in stats.items() if k.startswith("witness_")},
     )
     rep.assumptions += [
